@@ -81,7 +81,7 @@ Definition limited_only_requested_statement : Prop := forall v p creds d w k,
   exists f q, In f (k_fields k) /\ In q (f_paths f) /\ (q = a \/ path_base q = a).
 
 Definition raw_cred : cred :=
-  {| c_id := 1; c_issuer := 50; c_subject := 50; c_types := [1]; c_proofs := []; c_jwt := 0; c_sd := false;
+  {| c_id := 1; c_issuer := 50; c_subject := 50; c_ctx := 1; c_types := [1]; c_proofs := []; c_jwt := 0; c_sd := false;
      c_rawsubj := true; c_attrs := [(1, VStr 1); (2, VNum 5)] |}.
 Definition limit_a1 : desc :=
   {| d_id := 1; d_groups := []; d_schema := [(1, false)];
@@ -191,7 +191,7 @@ Definition dsimple (i : N) (g : list N) : desc :=
   {| d_id := i; d_groups := g; d_schema := [(1, false)];
      d_constraints := Some {| k_limit := false; k_sii := false; k_fields := [fconst i (Z.of_N i)] |}; d_format := None |}.
 Definition csimple (id : N) (attrs : list (N * jv)) : cred :=
-  {| c_id := id; c_issuer := 50; c_subject := 60; c_types := [1]; c_proofs := []; c_jwt := 0; c_sd := false; c_rawsubj := false; c_attrs := attrs |}.
+  {| c_id := id; c_issuer := 50; c_subject := 60; c_ctx := 1; c_types := [1]; c_proofs := []; c_jwt := 0; c_sd := false; c_rawsubj := false; c_attrs := attrs |}.
 
 Definition pick_one_of_two : defn :=
   {| p_format := None; p_reqs := [SFrom false 1 0 0 1]; p_descs := [dsimple 1 [1]; dsimple 2 [1]] |}.
@@ -232,7 +232,7 @@ Definition dfield (i : N) (limit : bool) (key : N) : desc :=
         k_fields := [{| f_paths := [key]; f_filter := None; f_optional := false; f_pred := false |}] |};
      d_format := None |}.
 Definition sd_cred : cred :=
-  {| c_id := 7; c_issuer := 50; c_subject := 60; c_types := [1]; c_proofs := []; c_jwt := 1; c_sd := true;
+  {| c_id := 7; c_issuer := 50; c_subject := 60; c_ctx := 1; c_types := [1]; c_proofs := []; c_jwt := 1; c_sd := true;
      c_rawsubj := false; c_attrs := [(1, VStr 1); (2, VNum 5); (3, VNum 6)] |}.
 Definition shared_object_defn : defn :=
   {| p_format := None; p_reqs := []; p_descs := [dfield 1 false 1; dfield 2 true 2] |}.
@@ -260,7 +260,7 @@ Example accepts_nonvacuous :
               p_reqs := [SNested true 0 0 0 [SFrom false 1 0 0 1; SFrom false 0 1 0 2]];
               p_descs := [dsimple 1 [1]; dsimple 2 [1]; dl] |} in
   let creds := [csimple 11 [(2, VNum 2); (9, VStr 1)];
-                {| c_id := 12; c_issuer := 50; c_subject := 60; c_types := [1]; c_proofs := []; c_jwt := 1; c_sd := false; c_rawsubj := false;
+                {| c_id := 12; c_issuer := 50; c_subject := 60; c_ctx := 1; c_types := [1]; c_proofs := []; c_jwt := 1; c_sd := false; c_rawsubj := false;
                    c_attrs := [(7, VNum 17); (8, VNum 30); (9, VStr 4)] |}] in
   NoDup (map d_id (p_descs p)) /\ unique_ids creds /\
   exists x, create_vp Fixed p creds = COk x /\
@@ -283,7 +283,7 @@ Example sdjwt_nonvacuous :
                   k_fields := [{| f_paths := [501]; f_filter := None; f_optional := false; f_pred := false |}] |};
                d_format := None |} in
   let p := {| p_format := None; p_reqs := []; p_descs := [dl; dsimple 2 []] |} in
-  let creds := [{| c_id := 7; c_issuer := 50; c_subject := 60; c_types := [1]; c_proofs := []; c_jwt := 1; c_sd := true;
+  let creds := [{| c_id := 7; c_issuer := 50; c_subject := 60; c_ctx := 1; c_types := [1]; c_proofs := []; c_jwt := 1; c_sd := true;
                    c_rawsubj := false; c_attrs := [(1, VStr 1); (2, VNum 2); (501, VStr 2); (502, VArr [VNum 7])] |}] in
   exists x, create_vp Fixed p creds = COk x /\
             map c_attrs (vp_creds x) = [[(501, VStr 2)]; [(1, VStr 1); (2, VNum 2); (501, VStr 2); (502, VArr [VNum 7])]] /\
